@@ -231,7 +231,8 @@ def _access(st, name):
             return 'load'
         return 'store' if any(_stores(t, name) for t in st.targets) else None
     if isinstance(st, ast.AugAssign):
-        return 'load' if (_loads(st, name) or _stores(st.target, name)) else None
+        # `x op= e` reads x only to produce the next x: it keeps x alive only if something else reads x later
+        return 'load' if _loads(st, name) else None
     if isinstance(st, ast.For):
         if _loads(st.iter, name) or _loads(st.target, name):
             return 'load'
